@@ -59,7 +59,7 @@ def dump (s : Store.State) : String :=
 
 def showTxnRes : TxnRes → String
   | .kv e v => "k:" ++ semi ([encB e.key, encNat e.flags, encS e.session, encNat e.lockIdx, encNat e.create,
-                              encNat e.modify] ++ (if v then [e.val] else []))
+                              encNat e.modify] ++ (if v && e.val != "=" then [e.val] else []))
   | .node n => "n:" ++ showNode n
   | .service v => "s:" ++ semi [encS v.id, encS v.name, encNat v.port, encNat v.create, encNat v.modify]
   | .check c => "c:" ++ semi [encS c.id, encS c.status, encS c.svcId, encS c.svcName, encNat c.create, encNat c.modify]
